@@ -90,6 +90,7 @@ func c15(c *Ctx) {
 	r.Explain = "C15 (directory nodes satisfy the map-node contract): decides structural agreement between the operations of each name-addressable node type — (M1) LookupByNode and LookupBySegment return, unmodified, the result of the same type's LookupByString on key.AsString() / seg.String(), and the native Lookup hands the key to the same primitive(s) as LookupByString; (M2) Length() returns the length of the very links list the iterators are created over and the list-iterator wrappers forward Next/Done unmodified; (M3) iterators and the lookup primitive map an absent link name to the constant \"\"; (M4) in the sharded directory, length, iteration and lookup classify links with the same predicate and descend through the same loader; (M5) the map iterator reports ErrIteratorOverread past the end. Not decided: the quantified equalities themselves (they also depend on go-codec-dagpb's list semantics)."
 	r.Rule("M1", "entry-point agreement per map ADL type: LookupByNode/LookupBySegment forward LookupByString(key.AsString()/seg.String()) unmodified; native Lookup passes key.String() to the same primitive functions as LookupByString")
 	r.Rule("M6", "the list-scanning lookup primitive leaves its links loop only when the iterator is exhausted or on the edge where the key equals the link's name: it never stops early on an ordering assumption (link lists may arrive in any order)")
+	r.Rule("M8", "Length() of the sharded directory is the count of a complete walk: the walk visits every link, recurses into every child shard, and the memoised count is written only by that walk after its loop has finished (an iterator or lookup that writes the memo can make Length() disagree with what iteration yields)")
 	r.Rule("M7", "every lookup entry point of the sharded directory hands the descent a hash cursor allocated in that very call (the cursor is stateful: it may be passed down the recursion but never reused across calls)")
 	r.Rule("M2", "Length() returns Length() of the links list at the same access path the iterators are created from (or the result of the walk function for sharded directories); list-iterator wrappers return the wrapped iterator's Next/Done results unmodified")
 	r.Rule("M3", "every function that tests a link's Name for existence uses the constant \"\" on the absent branch")
@@ -199,6 +200,7 @@ func c15(c *Ctx) {
 	c.checkLengthSource(ts)
 	c.checkAbsentName()
 	c.checkShardedAgreement()
+	c.checkLengthWalk()
 	c.checkOverread()
 }
 
@@ -471,23 +473,9 @@ func (c *Ctx) checkShardedAgreement() {
 			usedLoaders[call.Call.StaticCallee()] = true
 			key := core.FuncName(fn) + "/classify-then-load"
 			link := call.Call.Args[1]
-			// dominated by pred(link, pad) with value==false and err==nil
-			good := false
-			for _, pc := range core.CallsIn(fn) {
-				pcall, ok := pc.(*ssa.Call)
-				if !ok || pcall.Call.StaticCallee() != pred || pcall.Call.Args[0] != link {
-					continue
-				}
-				bv := extractOf(pcall, 0)
-				if bv != nil && core.GuardedBy(call.Block(), func(cond ssa.Value) (bool, bool) {
-					if cond == bv {
-						return false, true
-					}
-					return false, false
-				}) {
-					good = true
-				}
-			}
+			// dominated by pred(link, pad) with value==false and err==nil — in this function, or (when the link is a parameter)
+			// at every call site of this function
+			good := c.classifiedBefore(fn, call, link, pred, 0)
 			r.Check(good, "M4", key, c.P.Pos(call.Pos()), "the link is classified with "+pred.Name()+" and loaded only when it is not a value link", "a link is loaded as a child shard without being classified by "+pred.Name())
 		}
 	}
@@ -677,24 +665,43 @@ func (c *Ctx) checkFreshHashCursor(ts []*types.Named) {
 			if m == nil || len(m.Blocks) == 0 {
 				continue
 			}
-			for _, ci := range core.CallsIn(m) {
-				f := ci.Common().StaticCallee()
-				if f == nil {
-					continue
+			// follow the entry point into the repository helpers it calls until the descent receives its cursor: the cursor
+			// must be allocated in the function that hands it over, or be that function's own parameter (passed down)
+			seen := map[*ssa.Function]bool{}
+			var visit func(fn *ssa.Function, depth int)
+			visit = func(fn *ssa.Function, depth int) {
+				if seen[fn] || depth > 3 || len(fn.Blocks) == 0 {
+					return
 				}
-				if _, isRepo := c.P.PkgOf(f); !isRepo {
-					continue
-				}
-				for _, a := range ci.Common().Args {
-					if !c.statefulCursorPtr(a.Type()) {
+				seen[fn] = true
+				for _, ci := range core.CallsIn(fn) {
+					f := ci.Common().StaticCallee()
+					if f == nil {
 						continue
 					}
-					n++
-					key := core.TypeNameOf(t) + "/" + mname + "/fresh-hash-cursor"
-					al, fresh := a.(*ssa.Alloc)
-					r.Check(fresh && al.Parent() == m, "M7", key, c.P.Pos(ci.Pos()), "the hash cursor handed to "+f.Name()+" is allocated in this call", "the stateful hash cursor handed to "+f.Name()+" is not allocated in this call (a reused cursor resumes mid-hash and lands in the wrong bucket)")
+					if rel, isRepo := c.P.PkgOf(f); !isRepo || rel != "hamt" {
+						continue
+					}
+					handsCursor := false
+					for _, a := range ci.Common().Args {
+						if !c.statefulCursorPtr(a.Type()) {
+							continue
+						}
+						handsCursor = true
+						if p, isParam := a.(*ssa.Parameter); isParam && p.Parent() == fn {
+							continue // passed down the recursion
+						}
+						n++
+						key := core.TypeNameOf(t) + "/" + mname + "/fresh-hash-cursor"
+						al, fresh := a.(*ssa.Alloc)
+						r.Check(fresh && al.Parent() == fn, "M7", key, c.P.Pos(ci.Pos()), "the hash cursor handed to "+f.Name()+" is allocated in this call", "the stateful hash cursor handed to "+f.Name()+" is not allocated in this call (a reused cursor resumes mid-hash and lands in the wrong bucket)")
+					}
+					if !handsCursor {
+						visit(f, depth+1)
+					}
 				}
 			}
+			visit(m, 0)
 		}
 	}
 	r.Floor("M7", n, 2)
@@ -729,4 +736,75 @@ func (c *Ctx) iteratorSource(fn *ssa.Function, depth int) string {
 		}
 	}
 	return ""
+}
+
+// classifiedBefore: instruction at is dominated by the not-a-value outcome of pred(link, …) in fn; when link is a
+// parameter of fn and fn does not classify it, every repository call site of fn must satisfy the same for its argument.
+func (c *Ctx) classifiedBefore(fn *ssa.Function, at ssa.Instruction, link ssa.Value, pred *ssa.Function, depth int) bool {
+	for _, pc := range core.CallsIn(fn) {
+		pcall, ok := pc.(*ssa.Call)
+		if !ok || pcall.Call.StaticCallee() != pred || pcall.Call.Args[0] != link {
+			continue
+		}
+		bv := extractOf(pcall, 0)
+		if bv != nil && core.GuardedBy(at.Block(), func(cond ssa.Value) (bool, bool) {
+			if cond == bv {
+				return false, true
+			}
+			return false, false
+		}) {
+			return true
+		}
+	}
+	p, isParam := link.(*ssa.Parameter)
+	if !isParam || depth > 1 {
+		return false
+	}
+	idx := -1
+	for i, q := range fn.Params {
+		if q == p {
+			idx = i
+		}
+	}
+	if idx < 0 || len(c.G.In[fn]) == 0 {
+		return false
+	}
+	for _, e := range c.G.In[fn] {
+		ci, ok := e.Site.(ssa.CallInstruction)
+		if !ok || ci.Common().StaticCallee() != fn || idx >= len(ci.Common().Args) {
+			return false
+		}
+		if !c.classifiedBefore(e.Caller, e.Site, ci.Common().Args[idx], pred, depth+1) {
+			return false
+		}
+	}
+	return true
+}
+
+// checkLengthWalk implements M8 by applying the walk-shape check (shared with C06 R6.3 / C20 R20.3) to the sharded
+// directory's counting walk.
+func (c *Ctx) checkLengthWalk() {
+	r := c.R
+	fetch := c.G.Loaders(map[string]bool{"hamt": true})
+	n := 0
+	for _, fn := range c.hamtWalkers(fetch) {
+		// the counting walk returns an integer
+		if fn.Signature.Results().Len() == 0 || !isIntegerType(fn.Signature.Results().At(0).Type()) {
+			continue
+		}
+		n++
+		saved := c.R
+		tmp := core.NewReport("tmp", "")
+		c.R = tmp
+		c.checkWalkComplete(fn, fetch)
+		c.R = saved
+		var bad []string
+		for _, o := range tmp.Obls {
+			if o.Status != core.Discharged {
+				bad = append(bad, o.Detail)
+			}
+		}
+		r.Check(len(bad) == 0, "M8", core.FuncName(fn)+"/count-is-complete-walk", c.P.Pos(fn.Pos()), "the count is produced, and memoised, only by a complete walk of the shard tree", uniqJoin(bad))
+	}
+	r.Floor("M8", n, 1)
 }
